@@ -67,11 +67,22 @@ func TestVerifSketch(t *testing.T) {
 		p := newPolicy[int, int](false)
 		p.sketch = s
 		// a hot subset so that estimates saturate, a cold tail so that collisions matter
+		// every fourth run is sparse: a tiny table and (almost) a single key, so that whole table words hold nothing but
+		// the counters of that key - all of them even or all of them odd when the aging step fires
+		sparse := run%4 == 3
+		main := rng.Intn(nkeys)
 		for op := 0; op < nops; op++ {
 			rec := skRec{}
-			switch x := rng.Intn(20); {
+			x := rng.Intn(20)
+			if sparse && x < 3 && op > 1 && rng.Intn(4) != 0 {
+				x = 10
+			}
+			switch {
 			case x == 0 || op == 1:
 				c := caps[rng.Intn(len(caps))]
+				if sparse {
+					c = caps[rng.Intn(3)]
+				}
 				before := len(s.table)
 				s.ensureCapacity(uint64(c))
 				rec.Tp, rec.Cap = "ensure", c
@@ -94,6 +105,9 @@ func TestVerifSketch(t *testing.T) {
 				k := rng.Intn(nkeys)
 				if rng.Intn(3) != 0 {
 					k = rng.Intn(3) // hot keys
+				}
+				if sparse && rng.Intn(12) != 0 {
+					k = main
 				}
 				before := s.size
 				s.increment(k)
